@@ -13,6 +13,7 @@ type Options struct {
 	P5           string       `json:"p5,omitempty"` // polyline | straight | ortho | splines | noop
 	FixedSize    *[2]float64  `json:"fixed_size,omitempty"`
 	Sizes        []NodeSize   `json:"sizes,omitempty"`
+	Sizes2       []NodeSize   `json:"sizes2,omitempty"` // a second WithNodeSize option in the same call, with a map of its own
 	NodeSpacing  *float64     `json:"node_spacing,omitempty"`
 	LayerSpacing *float64     `json:"layer_spacing,omitempty"`
 	Thoroughness *uint        `json:"thoroughness,omitempty"`
